@@ -36,6 +36,10 @@ def run(model, tier="quick"):
     uncl = unclassified_fields(model)
     if uncl:
         res.notes.append("unclassified fields treated as holdings: " + ", ".join(uncl))
+    from ..rules.fresh import fresh_rule
+    if "R-FRESH" not in res.rules:
+        res.rules.append("R-FRESH")
+    fresh_rule(model, res, scope=('demeter/aave/', 'demeter/uniswap/', 'demeter/squeeth/', 'demeter/deribit/', 'demeter/gmx/'))
     res.assumptions = [
         "exceptions other than raise/assert/require (KeyError, TypeError, Decimal signals) are not rejection causes",
         "field classification table sa/state.py (holding/status/memo/config) confirmed by reading each __init__",
